@@ -214,6 +214,21 @@ CHECKS["C09"] = dict(
          "dictionary-loading part are left to the runtime (no gating hooks).",
     ref="4 C09", technique="TLA+ model checking (TLC) + schedule replay on the real server + stateful trace validation")
 
+CHECKS["C10"] = dict(
+    text="The side effects a Harper process may perform are specified as an alphabet per mode (stdio server, loopback "
+         "TCP server, library) in spec/EffectsOps.tla, and a small automaton of the server's life (listener set-up, "
+         "serving, save_dict windows, save_stats at shutdown) is model-checked against it. The real harper-ls binary, "
+         "built from /repo, is run under strace -f through a complete LSP session in stdio mode and one in TCP mode "
+         "(every notification and command except the user-initiated HarperOpen), as is a process that only uses the "
+         "library, the comment parsers and the JS-facing API; every network call and every write-open / mkdir / rename / "
+         "unlink becomes a Sys event that TLC validates against the alphabet (spec/trace/Trace_Effects.tla). The "
+         "resolved normal+build dependency set of the shipped crates (cargo metadata) is checked against the spec's "
+         "deny-list of network/TLS/DNS client packages as Dep events.",
+    note="Trusted: strace, cargo metadata, TLC. Paths are classified against the configured dictionary/statistics "
+         "locations by the trace producer; the policy (which class is allowed in which mode) is in the spec. The "
+         "dependency clause is a static fact fed to the spec, not behaviour explored by TLC.",
+    ref="4 C10", technique="TLA+ effect alphabet (TLC) + system-call trace validation of the real binary")
+
 NOT_YET = {}
 
 
